@@ -1,10 +1,11 @@
 ------------------------------ MODULE MC_Indels ------------------------------
 EXTENDS Indels, Json
+\* query ids that are decimal substrings of one another (13, 3, 131, 1, 31): an id list kept as text must not confuse them
 CONSTANTS MaxCalls, Chrs, Coords
 Init == calls = <<>> /\ k = 1 /\ clusters = <<>> /\ pc = "gen"
 Gen == /\ pc = "gen" /\ Len(calls) < MaxCalls
        /\ \E ch \in Chrs, rs \in Coords : \E re \in {x \in Coords : x >= rs} :
-            LET c == [type |-> "deletion", chr |-> ch, rs |-> rs, re |-> re, qid |-> 10 + Len(calls), qs |-> 0,
+            LET c == [type |-> "deletion", chr |-> ch, rs |-> rs, re |-> re, qid |-> <<13, 3, 131, 1, 31>>[Len(calls) + 1], qs |-> 0,
                       qe |-> 1, len |-> AbsV(rs - re) - 1] IN
             /\ (IF calls = <<>> THEN TRUE ELSE Last(calls).chr < ch \/ (Last(calls).chr = ch /\ Last(calls).re <= re))
             /\ calls' = Append(calls, c)
